@@ -19,6 +19,8 @@ fn menu() -> Vec<Universal2DBox> {
         b(100.0, 100.0, 10.0, 18.0),                           // 6 disjoint
         Universal2DBox::new(5.0, 5.0, None, 0.5, -3.0),        // 7 invalid: negative height
         Universal2DBox::new(5.0, 5.0, None, 0.0, 10.0),        // 8 invalid: zero aspect
+        b(8.9, 17.8, 3.0, 6.0),                                // 9 small box poking into the corner of 0 (13% covered)
+        b(7.5, 15.0, 10.0, 19.5),                              // 10 diagonal neighbour of 0 (corner overlap, 6% covered)
     ]
 }
 
@@ -132,7 +134,7 @@ fn dj(d: &[(Universal2DBox, Option<f32>)]) -> serde_json::Value {
 
 pub fn run(tier: Tier) -> Report {
     let rep = Report::new("C14", tier);
-    rep.set_rule("every list of n <= 4 (quick) / 5 (thorough) boxes drawn with repetition from a 9-box menu (cluster of shifted boxes, nested, exact duplicate, rotated, disjoint, two invalid) x score patterns (all None; every distinct permutation of a prefix of {.9,.5,.5,.1,.7}) x nms threshold {.3,.5,.7} x score threshold {None, below, inside, above}; plus chain / ladder / grid families of k boxes for every k <= 40. Non-trivial = at least two valid boxes.");
+    rep.set_rule("every list of n <= 4 (quick) / 5 (thorough) boxes drawn with repetition from an 11-box menu (cluster of shifted boxes, nested, exact duplicate, rotated, disjoint, two corner overlaps, two invalid) x score patterns (all None; every distinct permutation of a prefix of {.9,.5,.5,.1,.7}) x nms threshold {.05,.2,.3,.5,.7} x score threshold {None, below, inside, above}; plus chain / ladder / grid families of k boxes for every k <= 40. Non-trivial = at least two valid boxes.");
     rep.assume("own coverage computation (engine/src/geom.rs); keep/drop decisions asserted outside a 1e-4 margin around the threshold");
     let m = menu();
     let nmax = tier.pick(4usize, 5usize);
@@ -140,7 +142,7 @@ pub fn run(tier: Tier) -> Report {
     let nontrivial = AtomicU64::new(0);
     let kept_hist: Vec<AtomicU64> = (0..8).map(|_| AtomicU64::new(0)).collect();
     let score_base = [0.9f32, 0.5, 0.5, 0.1, 0.7];
-    let nms_thrs = [0.3f32, 0.5, 0.7];
+    let nms_thrs = [0.05f32, 0.2, 0.3, 0.5, 0.7];
     let score_thrs = [None, Some(0.05f32), Some(0.5), Some(0.95)];
     for n in 0..=nmax {
         let total = m.len().pow(n as u32);
